@@ -4,7 +4,7 @@
    per-key locks; a schedule is any list of thread steps (Run), timer firings (Fire) and clock
    ticks (Tick) - ops that are not enabled do nothing.  brun sched (binit ls cmds) is therefore every
    reachable state of every history of every number of producers and consumers. *)
-From Nodis Require Import Model.Conc Model.Block Proofs.BlockProofs Proofs.BlockWakeProofs.
+From Nodis Require Import Model.Conc Model.Block Proofs.BlockProofs Proofs.BlockWakeProofs Proofs.BlockImmediateProofs.
 From Coq Require Import ZArith List Bool Arith Lia.
 Import ListNotations.
 Local Open Scope Z_scope.
@@ -67,6 +67,30 @@ Theorem C18_push_start_needs_only_the_key_lock : forall s t x sd k vs,
   enabled (Run t) s = lock_is_free k s.
 Proof. exact push_start_needs_only_the_key_lock. Qed.
 Print Assumptions C18_push_start_needs_only_the_key_lock.
+
+(* immediate return.  A blocking pop that runs while nobody else moves and none of its keys is locked, in
+   ANY state (any lists, any registry, any number of keys, any timeout): if key number j of its list is the
+   first that has an element, then after its 1 + n + j + 2 steps (start, n registrations, j empty looks, the
+   pop, the deregistration) it has replied (that key, the element LPOP resp. RPOP would take), the
+   element is gone from that list, every other list is as before, no key lock is held, and the client
+   is registered nowhere.  With pop_one_head / pop_one_tail: the head for BLPOP, the tail for BRPOP. *)
+Theorem C18_immediate_return : forall t sd ks tmo s x j k v r,
+  nget t (bths s) = Some x -> b_cmd x = BBlock sd ks tmo -> b_pc x = BStart ->
+  (forall k', In k' ks -> lock_is_free k' s = true) ->
+  (forall k', ~ In t (rget k' (reg s))) ->
+  nth_error ks j = Some k ->
+  (forall i k', (i < j)%nat -> nth_error ks i = Some k' -> lget k' (lists s) = []) ->
+  pop_one sd (lget k (lists s)) = Some (v, r) ->
+  let s' := run_t (1 + (length ks + (j + 2))) t s in
+  breply t s' = Some (RBlock (Some (k, v))) /\ lget k (lists s') = r /\
+  (forall k', k' <> k -> lget k' (lists s') = lget k' (lists s)) /\
+  (forall k', ~ In t (rget k' (reg s'))) /\ klock s' = klock s.
+Proof. exact immediate_pop. Qed.
+Print Assumptions C18_immediate_return.
+Theorem C18_blpop_takes_the_head : forall v l, pop_one SL (v :: l) = Some (v, l).
+Proof. exact pop_one_head. Qed.
+Theorem C18_brpop_takes_the_tail : forall v l, pop_one SR (l ++ [v]) = Some (v, l).
+Proof. exact pop_one_tail. Qed.
 
 (* non-vacuous: two consumers (one with timeout 0) wait on an empty key, one RPUSH of two elements:
    BLPOP gets the head, BRPOP the tail, the push replies 2; a third consumer times out at 50 ms *)
